@@ -301,6 +301,42 @@ pub fn scenario(idx: usize, seed: u64, mode: Mode, max_steps: usize) -> Scenario
             } else if kind < 90 {
                 // rpc a->b if listed (no verdict here except through the delivery oracle)
                 let p = h.nodes[b].peer_id;
+                let pa = h.nodes[a].peer_id;
+                if h.nodes[a].net.peers().contains(&p) && h.nodes[b].net.peers().contains(&pa) && rng.gen_bool(0.35) {
+                    // an application reacting to a failed call: a has an RPC in flight to b (handler
+                    // never answers), b disconnects a, and the moment the call fails a disconnects b
+                    // itself - possibly before its own connection handler has processed the close.
+                    // Whoever removes the entry, the loss must be published exactly once.
+                    h.check_c04("pre-racing-disconnect");
+                    let spec = RpcSpec::simple(100, step as u64).with_script(world::Script { delay_us: world::NEVER, resp_len: 1, status: 200, nhdr: 0, seed: 1 });
+                    let (log, net, ia) = (w.log.clone(), h.nodes[a].net.clone(), h.nodes[a].idx);
+                    let mut call = Box::pin(async move { world::rpc(&log, &net, ia, p, &spec).await.1 });
+                    let _ = futures::poll!(&mut call);
+                    tokio::time::sleep(max_lat * 2 + Duration::from_millis(5)).await;
+                    let _ = h.nodes[b].net.disconnect(pa);
+                    let failed = tokio::time::timeout(Duration::from_secs(20), &mut call).await;
+                    let was_listed = h.nodes[a].net.peers().contains(&p);
+                    let _ = h.nodes[a].net.disconnect(p);
+                    if h.nodes[a].net.peers().contains(&p) {
+                        h.c09.push(format!("node {a} still lists {} right after disconnect()", pid_hex(&p)));
+                    }
+                    // let the handler's own exit path run as well, then read the events
+                    tokio::time::sleep(Duration::from_millis(5)).await;
+                    let (evs, _, errs) = h.nodes[a].drain();
+                    for e in errs {
+                        h.c04.push(format!("node {a} at a disconnect racing the remote close: {e}"));
+                    }
+                    // (a connection that replaced another in the meantime publishes its own LostPeer /
+                    // NewPeer pair: what matters is that the LAST word about the peer is its loss)
+                    let lost = evs.iter().filter(|e| matches!(e, PeerEvent::LostPeer(q, _) if *q == p)).count();
+                    let last_is_loss = matches!(evs.iter().rev().find(|e| matches!(e, PeerEvent::NewPeer(q) | PeerEvent::LostPeer(q, _) if *q == p)), Some(PeerEvent::LostPeer(..)));
+                    if was_listed && !last_is_loss {
+                        h.c09.push(format!("node {a}: {} was listed, then removed by a disconnect() that raced the remote close, but the last event about it is not its loss ({lost} LostPeer events; rpc outcome {:?}; events {:?})", pid_hex(&p), failed.as_ref().map(|r| r.is_ok()), evs.iter().map(|e| match e { PeerEvent::NewPeer(q) => format!("N{}", &pid_hex(q)[..4]), PeerEvent::LostPeer(q, r) => format!("L{}:{r:?}", &pid_hex(q)[..4]) }).collect::<Vec<_>>()));
+                    }
+                    h.bump("disconnects_racing_a_remote_close");
+                    label = format!("rpc {a}->{b} fails on remote disconnect, then {a} disconnects {b}");
+                    last_fault_or_action = w.now();
+                } else
                 if h.nodes[a].net.peers().contains(&p) {
                     let spec = RpcSpec::simple(rng.gen_range(0..5000), step as u64);
                     let _ = tokio::time::timeout(
@@ -308,8 +344,10 @@ pub fn scenario(idx: usize, seed: u64, mode: Mode, max_steps: usize) -> Scenario
                         world::rpc(&w.log, &h.nodes[a].net, h.nodes[a].idx, p, &spec),
                     )
                     .await;
+                    label = format!("rpc {a}->{b}");
+                } else {
+                    label = format!("rpc {a}->{b}");
                 }
-                label = format!("rpc {a}->{b}");
                 last_fault_or_action = w.now();
             } else if kind < 95 && mode == Mode::C04 {
                 // adversary: a second/third connection with the same identity
